@@ -66,6 +66,20 @@ def run(ctx):
             vlib.report(ctx, 'hostile-input:%s:%s' % (who, why), 'Lint*Ex on a parser-accepted %s did not return normally (%s): %s mutated by %s at %s%s' % (
                 who, why, e['base'], e['op'], e['path'], (' panic=' + e.get('panicMsg', '')[:160]) if e.get('escaped') else ''),
                 dict(kind='mutate', base=e['base'], path=e['path'], op=e['op'], der_b64=e.get('der')))
+    # the result sets of the several-offender inputs and of the injected extensions (every object identifier of v3/util as an
+    # extension with values it cannot decode, on a subscriber certificate, a CA certificate and a CRL): judged like the corpus'
+    hrej, hlines = vlib.tlc_trace(ctx, 'Trace_Run', os.path.join(dm, 'run.ndjson'), shards=6)
+    hseen = set()
+    for (ln, payload) in hrej:
+        e = json.loads(hlines[ln - 1])
+        for why in payload[0]:
+            cls = '%s:%s' % (e['kind'], why)
+            if cls in hseen or len(hseen) > 6:
+                continue
+            hseen.add(cls)
+            bad = [json.loads(hlines[{'cert': 0, 'crl': 1, 'ocsp': 2}[e['kind']]])['names'][k - 1] for k, st in zip(e.get('keys', []), e.get('st', [])) if st < 1 or st > 7][:4]
+            vlib.report(ctx, 'hostile-result-set:%s' % cls, 'result set of %s (%s) is not well formed: %s%s' % (e['id'], e['kind'], why, (' (lints: %s)' % bad) if bad else ''),
+                        dict(kind='hostile-run', id=e['id'], why=why))
     dp = vlib.drive(ctx, exe, 'plant')
     for pnc in (json.load(open(os.path.join(dp, 'panics.json'))) or [])[:6]:
         if 'recovered' not in pnc:
